@@ -27,10 +27,16 @@ func (t *T) WriteTo(w io.Writer) (int64, error) {
 	}
 	err = t.S.ForEach(func(k uint64) error {
 		buf[0] = byte(k)
+		buf[1] = 0
 		if k&1 == 1 {
 			buf[1] = 1
 		}
-		m, err := w.Write(buf[:2])
+		if k&2 == 2 {
+			buf[2] = 7
+		} else {
+			buf[2] = 9
+		}
+		m, err := w.Write(buf[:3])
 		if err != nil {
 			return err
 		}
@@ -62,11 +68,11 @@ func Restore(r io.Reader) (int, *T, error) {
 	}
 	total += n
 	t := &T{N: uint64(buf[0]), Items: map[uint64]bool{}}
-	for i := uint64(0); i < t.N; i++ {
+	for {
 		n, err := io.ReadFull(r, buf[:1])
 		if err != nil {
 			if err == io.EOF {
-				err = io.ErrUnexpectedEOF
+				break
 			}
 			return total, nil, err
 		}
@@ -77,4 +83,22 @@ func Restore(r io.Reader) (int, *T, error) {
 		return total, nil, errors.New("item count mismatch")
 	}
 	return total, t, nil
+}
+
+func (t *T) WriteItems(w io.Writer) (int, error) {
+	total := 0
+	var rec [9]byte
+	for k, v := range t.Items {
+		rec[0] = byte(k)
+		rec[8] = 0
+		if v {
+			rec[8] = 1
+		}
+		n, err := w.Write(rec[:])
+		if err != nil {
+			return total, err
+		}
+		total += n
+	}
+	return total, nil
 }
